@@ -1,5 +1,7 @@
-#![allow(irrefutable_let_patterns)]
+#![allow(irrefutable_let_patterns, dead_code)]
+mod conditions;
 mod ints;
+mod sx;
 mod util;
 
 fn main() {
@@ -8,10 +10,15 @@ fn main() {
         eprintln!("usage: vh <domain> [--key value ...]");
         std::process::exit(2);
     }
-    std::panic::set_hook(Box::new(|_| {}));
+    std::panic::set_hook(Box::new(|info| {
+        if !util::QUIET.with(|q| q.get()) {
+            eprintln!("harness panic: {info}");
+        }
+    }));
     let args = util::Args::parse(&argv[2..]);
     match argv[1].as_str() {
         "ints" => ints::record(&args),
+        "conditions" => conditions::record(&args),
         d => {
             eprintln!("unknown domain {d}");
             std::process::exit(2);
